@@ -823,3 +823,38 @@ Section Sound.
   Definition store_sound (st : store) : Prop :=
     forall fid fl, get_file st fid = Some fl -> file_sound st fid fl.
 End Sound.
+
+(* ------------------------------------------------------------------ *)
+(* large-index family: store_basin calls with maps given as a common   *)
+(* base (i + off) plus a few (position, delta) differences             *)
+(* ------------------------------------------------------------------ *)
+Fixpoint add_diffs (i : Z) (l : list Z) (diffs : list (Z * Z)) : list Z :=
+  match l with
+  | [] => []
+  | x :: r => (x + match assoc i diffs with Some d => d | None => 0 end)
+              :: add_diffs (i + 1) r diffs
+  end.
+
+Definition checksum (m : list Z) : Z :=
+  fold_left (fun acc x => (acc * 31 + x) mod 1000003) m 0.
+
+Definition run_big (c : Z * Z * list (list (Z * Z) * option Z)) : list Z :=
+  let '(L, off, ms) := c in
+  let base := map (fun i => i + off) (iota L) in
+  let sbs := map (fun dn : list (Z * Z) * option Z =>
+                    SBFile 0 (Some (add_diffs 0 base (fst dn))) (snd dn) None)
+                 ms in
+  match store_basins {| f_n := L; f_innate := []; f_slots := empty_slots;
+                        f_basins := [] |} sbs with
+  | None => [-1]
+  | Some fl =>
+      map (fun b => match b_slot b with
+                    | Some k => Z.of_nat k
+                    | None => -2
+                    end) (f_basins fl)
+      ++ [-3]
+      ++ flat_map (fun k => match slot (f_slots fl) k with
+                            | None => []
+                            | Some m => [Z.of_nat k; zlen m; checksum m]
+                            end) (seq 0 10)
+  end.
